@@ -64,6 +64,30 @@ Theorem C11_block_comment_non_code : forall s,
 Proof. exact block_comment_non_code. Qed.
 Print Assumptions C11_block_comment_non_code.
 
+(** The native block comment matcher consumes at least an opener and a closer, never more than
+    the text ... *)
+Theorem C11_block_comment_match_bounds : forall s n,
+  block_comment_match s = Some n -> 4 <= n /\ n <= lenN s.
+Proof. exact block_comment_match_bounds. Qed.
+Print Assumptions C11_block_comment_match_bounds.
+
+(** ... and a comment of the perturbation class (any bytes, ASCII or not, without NUL, opener or
+    closer inside) is matched as exactly itself in *bytes*, whatever follows it; its elements are
+    non-code and the text after it is handed on unchanged. *)
+Theorem C11_block_comment_match_context_free : forall body rest,
+  clean_body body = true ->
+  block_comment_match (comment_of body ++ rest) = Some (lenN (comment_of body)).
+Proof. exact block_comment_match_context_free. Qed.
+Print Assumptions C11_block_comment_match_context_free.
+
+Theorem C11_block_comment_lex_context_free : forall body rest,
+  clean_body body = true ->
+  block_comment_lex (comment_of body ++ rest) = Some (block_comment_elems (comment_of body), rest) /\
+  Forall (fun e => is_code {| t_kind := fst e; t_raw := snd e |} = false)
+         (block_comment_elems (comment_of body)).
+Proof. exact block_comment_lex_context_free. Qed.
+Print Assumptions C11_block_comment_lex_context_free.
+
 (** The keyword-terminator guard of [greedy_match] distinguishes only meta / whitespace-or-newline /
     anything else ... *)
 Theorem C11_guard_class_only : forall xs ys working start,
